@@ -201,7 +201,7 @@ def _function_over_one_var(repr_func, raw_func, x, out=None, out_like=None, sizi
     if out is not None:
         z = out.set_val(val, raw=raw)
     else:
-        z = Fxp(val, signed=signed, n_int=n_int, n_frac=n_frac, like=out_like, raw=raw)
+        z = Fxp(val, signed=signed, n_int=n_int, n_frac=n_frac, like=out_like, raw=raw, config=config)
 
     # propagate inaccuracy from argument
     if x.status['inaccuracy']:
